@@ -178,6 +178,42 @@ Definition ws_effect (toks : list N) (k : call) (w : wsp) : option wsp :=
   | COther _ _ _ => Some w
   end.
 
+(* ------------------------------------------------------------------ what a handler's signature is *)
+(* has_ls_param_or_annotation(f, type(server)) looks at the callable through inspect.signature and
+   typing.get_type_hints.  `g_first`: the first parameter inspect.signature shows (NoFirst: there is
+   none, or inspect.signature raises) - its name being `ls` or not, and its own annotation (none /
+   exactly the server's class / anything else).  `g_hints`: typing.get_type_hints(f) returns: false
+   when ANY annotation of f (another parameter's, the return annotation) cannot be evaluated
+   (NameError: a string / `from __future__ import annotations` reference to a name that does not
+   exist at run time) and for callables get_type_hints rejects (TypeError: functools.partial objects,
+   instances with __call__).  The code, in its order:
+       sig = inspect.signature(f); first_p = next(islice(sig.parameters.values(), 0, 1))
+       return first_p.name == "ls" or get_type_hints(f)[first_p.name] == annotation
+     except Exception: return False *)
+Record gsig := mkG { g_first : fparams; g_hints : bool }.
+
+Definition has_ls_g (g : gsig) : bool :=
+  match g_first g with
+  | NoFirst => false                          (* StopIteration (or inspect.signature raised) *)
+  | First is_ls a =>
+      if is_ls then true                      (* `or` short-circuits: get_type_hints is not called *)
+      else if g_hints g then
+             match a with
+             | AServer => true
+             | ANone => false                 (* KeyError: the first parameter has no hint *)
+             | AOther => false
+             end
+      else false                              (* NameError / TypeError of get_type_hints swallowed *)
+  end.
+
+(* the abstract signature of Model/Features.v (`fparams`: what has_ls_param_or_annotation can see)
+   of such a callable: an annotation that cannot be looked up is as good as another type *)
+Definition see (g : gsig) : fparams :=
+  match g_first g with
+  | NoFirst => NoFirst
+  | First is_ls a => First is_ls (if g_hints g then a else AOther)
+  end.
+
 (* ------------------------------------------------------------------ handlers, futures, logs *)
 Inductive tsite := OnLoop | OnPool.                  (* threading.current_thread() is the loop's? *)
 Inductive part := PBuiltin | PUser | PCommand.
@@ -208,8 +244,9 @@ Definition code_internal : Z := (-32603)%Z.
 Definition code_cancelled : Z := (-32800)%Z.
 
 (* the registry after the decorated definitions of the case; which user functions raise;
-   the progress tokens that exist *)
-Record cfg := mkCfg { c_reg : registry; c_raises : list N; c_tokens : list N }.
+   the progress tokens that exist; (for the reference only) which user functions ASK for the
+   server: first parameter named `ls` or annotated with the server's class *)
+Record cfg := mkCfg { c_reg : registry; c_raises : list N; c_tokens : list N; c_asks : list N }.
 
 Definition raises (c : cfg) (e : entry) : bool := memN (e_fid e) (c_raises c).
 (* a handler that returns, returns the number of its function *)
